@@ -144,8 +144,13 @@ static int ga_free(void *user)
 	if (st != 1)
 		return -1;
 	r->t_free = vp_rdtsc();
-	mprotect(r->base, r->len, PROT_NONE);
-	madvise(r->base, r->len, MADV_DONTNEED);
+	/*
+	 * Replace the pages by a fresh inaccessible mapping (same trick as the library's mmap back end):
+	 * releases the memory and, unlike mprotect(), leaves a VMA that merges with the neighbouring
+	 * reservations, so the number of mappings stays proportional to the LIVE allocations.
+	 */
+	if (mmap(r->base, r->len, PROT_NONE, MAP_FIXED | MAP_PRIVATE | MAP_ANONYMOUS | MAP_NORESERVE, -1, 0) != (void *) r->base)
+		mprotect(r->base, r->len, PROT_NONE);
 	pthread_mutex_lock(&ga_lock);
 	ga_bytes_live -= r->len - 4096;
 	pthread_mutex_unlock(&ga_lock);
